@@ -747,10 +747,16 @@ def main():
         from translate_stack import emit_stack  # noqa
 
         nst = emit_stack(outdir)
+        from translate_function import emit_function_gen  # noqa
+        nfn = emit_function_gen(outdir)
+        from translate_line import emit_line  # noqa
+        nln = emit_line(outdir)
+        from translate_joint import emit_joint  # noqa
+        njt = emit_joint(outdir)
     except TranslateError as e:
         print(str(e))
         sys.exit(2)
-    print(f"translate: {nr} parser rules, {nc} instruction classes, {nl} leaf functions, {nk} key/index classification functions, {ns} wrapper functions, {na} condition-combination functions, {ng} global-graph/neighbourhood functions, {nsr} path-search functions, {nsv} worklist-solver functions, {nct} constraint-initialisation functions, {nrx} regex-engine functions, {ngr} group-verdict functions, {nrn} orchestration functions, {ncf} CFG-construction functions, {nst} operand-reconstruction functions -> {outdir}")
+    print(f"translate: {nr} parser rules, {nc} instruction classes, {nl} leaf functions, {nk} key/index classification functions, {ns} wrapper functions, {na} condition-combination functions, {ng} global-graph/neighbourhood functions, {nsr} path-search functions, {nsv} worklist-solver functions, {nct} constraint-initialisation functions, {nrx} regex-engine functions, {ngr} group-verdict functions, {nrn} orchestration functions, {ncf} CFG-construction functions, {nst} operand-reconstruction functions, {nfn} function-construction functions, {nln} line-parser functions, {njt} joint-pass function -> {outdir}")
 
 
 if __name__ == "__main__":
